@@ -6,10 +6,11 @@
 (* logs (term-of-the-real-value, configuration, digest) for Identity_Trace.   *)
 (* Theorems: sanity of the key construction over the whole enumeration.       *)
 EXTENDS Identity, Json, SequencesExt, FiniteSetsExt
-CONSTANTS Family,     \* "d1" | "d2seq" | "d2set" | "d2dict" | "ext" | "array"
+CONSTANTS Family,     \* "d1" | "d2seq" | "d2set" | "d2dict" | "ext" | "array" | "all"
           NAtoms,     \* depth-1 containers range over the first NAtoms atoms
           NSmall,     \* depth-2 containers range over the first NSmall atoms and their depth-1 containers
           MaxLen1,    \* max number of children of a depth-1 container
+          MaxLenS,    \* max number of children of the depth-1 containers nested inside depth-2 terms
           MaxLen2,    \* max number of children of a depth-2 sequence
           ArrSizes    \* set of element counts for arrays
 
@@ -44,7 +45,7 @@ D1Dict(At, Vals, n) ==
 D1(At, n) == D1Seq(At, n) \cup D1Set(At, n) \cup D1Dict(At, At, n)
 
 Small   == Atoms(NSmall)
-SmallD1 == D1(Small, MaxLen1)
+SmallD1 == D1(Small, MaxLenS)
 Strs    == { a \in Atoms(NAtoms) : a.k = "str" }
 
 (* frozensets of strings, and sets / frozensets of those (the partial-order case) *)
@@ -59,12 +60,18 @@ D2Dict == LET Keys == { a \in Small : a.k = "str" } IN
               ks \in { SetToSeq(x) : x \in (SUBSET Keys) \ {{}} }, f \in UNION { [1..m -> SmallD1] : m \in 1..Cardinality(Keys) } }
 
 (* extended atoms: types, functions, objects, paths -- names refer to the pool in harness/identity_common.py *)
-TypeNames == {"int", "float", "str", "bool", "bytes", "list", "dict", "list[int]", "list[str]", "dict[str,int]",
-              "tuple[int,str]", "int|str", "int|None", "Path", "P1", "Q1", "File"}
+Ty(name, origin, alias) == [k |-> "type", v |-> name, origin |-> origin, alias |-> alias]
+TypeAtoms == { Ty(n, n, "none") : n \in {"int", "float", "str", "bool", "bytes", "list", "dict", "tuple", "Path", "P1", "Q1", "File"} }
+        \cup { Ty("list[int]", "list", "builtin"), Ty("list[str]", "list", "builtin"), Ty("dict[str,int]", "dict", "builtin"),
+               Ty("dict[str,str]", "dict", "builtin"), Ty("tuple[int,str]", "tuple", "builtin"), Ty("tuple[int,...]", "tuple", "builtin"),
+               \* typing spellings: only such as have no PEP 585 / PEP 604 twin in the pool (whether two spellings of
+               \* one type are "the same value" is not decided by the statement, so the pair is never generated)
+               Ty("List[float]", "list", "typing"), Ty("Tuple[str,int]", "tuple", "typing"), Ty("Dict[int,str]", "dict", "typing"),
+               Ty("int|str", "union", "union"), Ty("int|None", "union", "union"), Ty("Union[float,str]", "union", "typing") }
 FuncNames == {"f_add1", "f_add2", "f_mul2", "f_neg", "f_kwd", "f_two"}
 ObjClasses == {"P1", "P2", "Q1", "Q2", "S1", "S2"}
 ExtAtoms ==
-     { A("type", n) : n \in TypeNames }
+     TypeAtoms
   \cup { [k |-> "func", v |-> n, cells |-> <<>>] : n \in FuncNames }
   \cup { [k |-> "obj", cls |-> c, v |-> << <<"a", x>>, <<"b", y>> >>] : c \in ObjClasses, x \in Atoms(3), y \in Atoms(2) }
   \cup { [k |-> "path", cls |-> c, v |-> p] : c \in {"PosixPath", "PurePosixPath"}, p \in {"/a/b", "/a", "a/b"} }
@@ -94,6 +101,8 @@ Terms == CASE Family = "d1"     -> Atoms(NAtoms) \cup D1(Atoms(NAtoms), MaxLen1)
            [] Family = "d2dict" -> D2Dict
            [] Family = "ext"    -> Ext
            [] Family = "array"  -> ArrTerms
+           [] Family = "all"    -> Atoms(NAtoms) \cup D1(Atoms(NAtoms), MaxLen1) \cup D2Seq \cup D2Set \cup D2Dict
+                                   \cup Ext \cup ArrTerms
 
 Init == term \in Terms /\ IInit
 Next == FALSE /\ UNCHANGED gvars
@@ -101,14 +110,28 @@ Next == FALSE /\ UNCHANGED gvars
 Emit == PrintT(ToJson(term))
 
 (* spec-level theorems on every enumerated term *)
+RECURSIVE Kids(_)
+Kids(t) == CASE t.k \in {"list", "tuple", "set", "frozenset"} -> SeqRange(t.v)
+             [] t.k = "dict" -> UNION { {p[1], p[2]} : p \in SeqRange(t.v) }
+             [] t.k = "obj"  -> { p[2] : p \in SeqRange(t.v) }
+             [] OTHER -> {}
+RECURSIVE HasArray(_)
+HasArray(t) == t.k = "ndarray" \/ \E c \in Kids(t) : HasArray(c)
+RECURSIVE HasSetOfFs(_)
+HasSetOfFs(t) == \/ (t.k \in {"set", "frozenset"} /\ \E c \in Kids(t) : c.k = "frozenset")
+                 \/ \E c \in Kids(t) : HasSetOfFs(c)
+
 Theorems ==
   /\ Canon(term) = CanonS(term, {})
-  \* the numpy switch changes the key of array-containing terms only, the set switch of sets of frozensets only
-  /\ (Family \notin {"array"}) => CanonS(term, {"numpy-shape-dtype"}) = Canon(term)
-  /\ (Family \notin {"d2set"}) => CanonS(term, {"set-sorted-partial-order"}) = Canon(term)
+  \* a switch changes the key only of the terms in the class it names
+  /\ ~HasArray(term)   => CanonS(term, {"numpy-shape-dtype"}) = Canon(term)
+  /\ ~HasSetOfFs(term) => CanonS(term, {"set-sorted-partial-order"}) = Canon(term)
   /\ CanonS(term, {"closure-value", "shell-field-metadata"}) = Canon(term)
-  \* Python's sort of a chain / of a 2-antichain: the permutation is a permutation
-  /\ (Family = "d2set") =>
-        LET E == [i \in 1..Len(term.v) |-> Canon(term.v[i]).v] IN
-        { PySortPerm(E)[j] : j \in 1..Len(E) } = 1..Len(E)
+  /\ (\A x \in {term} \cup Kids(term) : x.k # "type") => CanonS(term, {"generic-alias-args"}) = Canon(term)
+  \* the model of Python's sort returns a permutation, and a sorted one where "<" decides
+  /\ (term.k \in {"set", "frozenset"} /\ term.v # <<>> /\ \A c \in Kids(term) : c.k = "frozenset") =>
+        LET E == [i \in 1..Len(term.v) |-> Canon(term.v[i]).v]
+            p == PySortPerm(E) IN
+        /\ { p[i] : i \in 1..Len(p) } = 1..Len(E)
+        /\ \A a, b \in 1..Len(p) : a < b => ~PyLt(E[p[b]], E[p[a]]) \/ Len(E) > 2
 =============================================================================
